@@ -918,7 +918,7 @@ pub fn cmd_replay(args: &HashMap<String, String>) -> i32 {
                 if a == "Defer" || (a == "Commit" && st["tx"]["tree"]["incs"].as_array().map_or(false, |x| !x.is_empty())) {
                     nontrivial = true;
                 }
-                let r = run.step(st).and_then(|_| run.observe(o, nt, nx)).and_then(|_| {
+                let r = catch(|| run.step(st).and_then(|_| run.observe(o, nt, nx)).and_then(|_| {
                     if o["qlen"].as_u64() == Some(0) && (a == "Restart" || i + 1 == steps.len() || i % 5 == 4) && run.readers.is_empty() {
                         run.drain().and_then(|_| run.check_counts(o)).and_then(|_| run.check_structure(o)).map(|orph| {
                             if orph > 0 {
@@ -928,7 +928,8 @@ pub fn cmd_replay(args: &HashMap<String, String>) -> i32 {
                     } else {
                         Ok(())
                     }
-                });
+                }))
+                .unwrap_or_else(|p| Err(format!("panic: {p}")));
                 if let Err(e) = r {
                     let what = if o["conflict"].as_bool() == Some(true) && !e.starts_with("harness:") { format!("{e} [after a deferred commit was moved behind a commit writing the same key]") } else { e };
                     viol.push(json!({"step": i + 1, "a": a, "what": what}));
@@ -959,7 +960,8 @@ pub fn cmd_replay(args: &HashMap<String, String>) -> i32 {
             let _ = w.join();
         }
         parity_db::verif::set_sink(None);
-        drop(run.db.take());
+        let dbx = run.db.take();
+        let _ = catch(move || drop(dbx));
         let _ = std::fs::remove_dir_all(&run.dir);
         let _ = std::fs::remove_dir_all(&dir);
         writeln!(outf, "{}", json!({"i": idx, "nontrivial": nontrivial, "violations": viol})).unwrap();
@@ -1342,7 +1344,7 @@ pub fn cmd_record(args: &HashMap<String, String>) -> i32 {
     while i < steps && problems.is_empty() {
         i += 1;
         let r = rng.gen_range(0..100u32);
-        let res: Result<(), String> = (|| {
+        let step_fn = || -> Result<(), String> {
             if r < 34 {
                 // a transaction: tree operation (+ sometimes a plain write)
                 let pending_deref: HashSet<u64> = m.queue.iter().filter_map(|(_, o)| if let MOp::Deref(k) = o { Some(*k) } else { None }).collect();
@@ -1521,7 +1523,12 @@ pub fn cmd_record(args: &HashMap<String, String>) -> i32 {
                 }
                 Ok(())
             }
-        })();
+        };
+        // a panic of the code under test is data
+        let res = match catch(step_fn) {
+            Ok(r) => r,
+            Err(p) => Err(format!("panic: {p}")),
+        };
         if let Err(e) = res {
             problems.push(e);
             break
@@ -1545,18 +1552,20 @@ pub fn cmd_record(args: &HashMap<String, String>) -> i32 {
                 }
             }
         }
-        match project(&mut run, &m, &root_cids) {
-            Ok(o) => {
+        match catch(|| project(&mut run, &m, &root_cids)) {
+            Ok(Ok(o)) => {
                 out.push(o);
             },
-            Err(e) => problems.push(format!("read: {e}")),
+            Ok(Err(e)) => problems.push(format!("read: {e}")),
+            Err(p) => problems.push(format!("panic in a read: {p}")),
         }
     }
     for (_, h) in run.readers.drain().chain(run.kept.drain()) {
         h.unlock();
     }
     parity_db::verif::set_sink(None);
-    drop(run.db.take());
+    let dbx = run.db.take();
+    let _ = catch(move || drop(dbx));
     let _ = std::fs::remove_dir_all(&run.dir);
     let _ = std::fs::remove_dir_all(&dir);
     let mut f = std::io::BufWriter::new(std::fs::File::create(&args["out"]).unwrap());
